@@ -33,7 +33,7 @@ Suspended == {"suspTop", "suspCall", "suspErr", "suspOdd", "suspBusy"}
 \*   float   1.5                                 word    abc
 TidToks == {"tid", "tidx", "neg", "huge", "float", "word"}
 \*   sl prog:2   slx nosuch:3   sln prog:-1   slh prog:<huge>   slw prog:x   sle prog:   cl :5   sll a:1:2   src prog
-BreakToks == {"sl", "slx", "sln", "slh", "slw", "sle", "cl", "sll", "src", "word", "num", "neg"}    \* num: 42 (no colon at all)
+BreakToks == {"sl", "slx", "sln", "slh", "slw", "sle", "cl", "sll", "src", "srclong", "word", "num", "neg"}    \* num: 42 (no colon at all)
 ContToks == {"resume", "stepin", "stepover", "stepout", "STEPIN", "word"}
 \*   var a variable of the suspended thread (x)   novar zz   badname 1x   expr 1+2   badexpr ((
 NameToks == {"var", "novar", "badname"}
@@ -45,7 +45,7 @@ Commands == {"breakonstart", "break", "rmbreak", "disablebreak", "cont", "descri
 
 IsNumber(t) == t \in {"tid", "tidx", "neg"}                 \* strconv.ParseInt(.., 10, 0) accepts it
 IsTarget(t) == t \in {"sl", "slx", "sln", "cl", "sll"}      \* <something>:<int>, more parts ignored
-IsName(t) == t \in {"var", "novar", "word", "resume", "stepin", "stepover", "stepout", "STEPIN", "true", "false", "src"}
+IsName(t) == t \in {"var", "novar", "word", "resume", "stepin", "stepover", "stepout", "STEPIN", "true", "false", "src", "srclong"}
 ContWord(t) == t \in {"resume", "stepin", "stepover", "stepout", "STEPIN"}
 
 \* the answer class of a line in a state
